@@ -1000,6 +1000,11 @@ func isEmptySliceBase(b ssa.Value) bool {
 			return true
 		}
 	case *ssa.Slice:
+		if h, ok := constInt(x.High); x.High != nil && ok && h == 0 && x.Low == nil {
+			if _, isAlloc := x.X.(*ssa.Alloc); isAlloc {
+				return true // make([]T, 0, constCap)
+			}
+		}
 		if vals, ok := sliceLiteral(x); ok && len(vals) == 0 {
 			return true
 		}
